@@ -299,6 +299,9 @@ func (c *pgCtx) external(o *types.Func, x *ast.CallExpr, recv ast.Expr) (pre []s
 		return pre, "Go.findIndex X " + e + " " + c.atom(x.Args[0], &pre), true, true
 	case "fmt.Sprintf":
 		return pre, c.sprintf(x, &pre), false, true
+	case "fmt.Errorf": // progerr.go: the record of an error whose Error() is the formatted text
+		s := c.sprintf(x, &pre)
+		return pre, "(Go.errorf (" + s + "))", false, true
 	}
 	return
 }
